@@ -90,10 +90,13 @@ static int closure_make(const unsigned char *b,int n,long v,unsigned char *out,c
    if (v<256){ memcpy(out,b,n); if(n>0) out[0]=(unsigned char)v; snprintf(desc,dcap,"toc=%02lx",v); return n; }
    v-=256;
    if (v<CL_NREFRAME){
-      rfc_pkt m; const unsigned char *fr[49]; int sz[49],i,len=-1; const unsigned char *pl; int ps; static unsigned char padz[520];
+      rfc_pkt m; const unsigned char *fr[49]; int sz[49],i,len=-1; const unsigned char *pl; int ps; static unsigned char padz[520]; static unsigned char plbuf[1280];
       rfc_parse(b,n,0,&m);
       if (m.ok && m.count>0){ pl=b+m.off[0]; ps=m.size[0]; } else { pl=b+(n>0); ps=n>0?n-1:0; }
       if (ps>1275) ps=1275;
+      /* the payload is copied into a zero-padded scratch so that re-framings which announce more bytes than the base frame has
+         (e.g. one-byte frames cut from an empty DTX frame) never read outside the base packet */
+      memset(plbuf,0,sizeof plbuf); if(ps>0) memcpy(plbuf,pl,ps); pl=plbuf;
       for(i=0;i<49;i++){ fr[i]=pl; sz[i]=ps; }
       snprintf(desc,dcap,"reframe%ld",v);
       switch((int)v){
